@@ -115,7 +115,9 @@ IsLast == l + 1 = NSnaps
 Fresh  == ~S.same                              \* tree clauses need re-evaluation only when the tree changed
 C5     == CheckC05 /\ Fresh
 C5End  == CheckC05 /\ IsLast
-C7     == CheckC07 /\ Tr.lossless /\ l >= 1 /\ Fresh
+\* after a recorded loss (dev) later losses can be its consequence (a section left without text is
+\* removed as empty): the word clauses are not applied to the rest of that trace
+C7     == CheckC07 /\ Tr.lossless /\ l >= 1 /\ Fresh /\ ~dev
 
 \* the clauses, in the order they are reported
 Clauses == <<
